@@ -217,7 +217,7 @@ func (d *c01Deployment) connect(cfg *tls.Config, chunk int, payload []byte) c01R
 func TestC01(t *testing.T) {
 	rec := ev.Get("C01")
 	rec.Rule("full deployments with the real crypto/tls stack on both ends: client tls.Config (server name 1..253 bytes, 0..4 ALPN protocols, curve preference lists over {X25519, P-256, P-384, X25519MLKEM768} - hence key_share sizes and real HelloRetryRequests -, cold or warm session cache, optional client certificate with a 0.5..40 KB chain), backend tls.Config without ECH keys (curves, ALPN, client auth, certificate chain 0.5..40 KB, session tickets), client-facing key set of 1..3 keys, the three AEAD suites, fresh or stale client config, client writes chunked 1..4096 bytes or whole. Oracle: the two crypto/tls endpoints - fresh: handshake completes, client ECHAccepted, echo both ways, backend ServerName/ALPN and Conn.ServerName/ALPNProtos equal the client's inner values; stale: hello reaches the public-name server untouched, client gets ECHRejectionError with the server's retry configs and a second connection with them is accepted. distinct = configuration tuple; non-trivial = anything but X25519 / no ALPN / cold / single key")
-	rec.Mandatory("hrr", "resumed", "pq_share", "name_ge200", "server_chain_ge16k", "client_chain_ge16k", "aead1", "aead2", "aead3", "stale", "chunked", "client_auth")
+	rec.Mandatory("config_id_collision", "hrr", "resumed", "pq_share", "name_ge200", "server_chain_ge16k", "client_chain_ge16k", "aead1", "aead2", "aead3", "stale", "chunked", "client_auth")
 	rapid.Check(t, func(t *rapid.T) {
 		var cl []string
 		serverName := hello.TwoLabels(hello.GenName(t, "server_name", 253))
@@ -234,6 +234,18 @@ func TestC01(t *testing.T) {
 			k := drawKey(t, fmt.Sprintf("k%d", i), 10+i, publicName)
 			k, _ = hello.NewKey(k.Priv.Bytes(), uint8(10+i), publicName, suites)
 			keys = append(keys, k)
+		}
+		if rapid.IntRange(0, 3).Draw(t, "id_collision") == 0 {
+			// key rotation with a colliding one-byte id: another key, same id as the
+			// target's, registered under another public name, somewhere in the list
+			ck := drawKey(t, "collide", 10+target, "other-"+publicName[:min(len(publicName), 180)])
+			ck, _ = hello.NewKey(ck.Priv.Bytes(), uint8(10+target), "other-"+publicName[:min(len(publicName), 180)], suites)
+			pos := rapid.IntRange(0, len(keys)).Draw(t, "collide_pos")
+			keys = append(keys[:pos], append([]*hello.Key{ck}, keys[pos:]...)...)
+			if pos <= target {
+				target++
+			}
+			cl = append(cl, "config_id_collision")
 		}
 		cl = append(cl, fmt.Sprintf("aead%d", suites[0].AEAD))
 		stale := rapid.IntRange(0, 4).Draw(t, "stale") == 0
